@@ -95,3 +95,35 @@ Definition unpack_ints_gen (mk : Z -> rvalue) (mn mx : Z) (s : bsr) : res (bsr *
     (fun uint => mk (wrap_i64 (Z.of_N (N.land uint mask) + mn))) s [].
 Definition unpack_ints := unpack_ints_gen VInteger.
 Definition unpack_scaled_ints := unpack_ints_gen VScaled.
+
+(** The dispatch of [QueueReader::parse_byte_streams] for a record of non-zero width. *)
+Definition unpack_type (t : dtype) (s : bsr) : res (bsr * list rvalue) :=
+  match t with
+  | TSingle => unpack_singles s
+  | TDouble => unpack_doubles s
+  | TScaled mn mx => unpack_scaled_ints mn mx s
+  | TInteger mn mx => unpack_ints mn mx s
+  end.
+
+(** Writing a sequence of values of one attribute into its byte stream buffer. *)
+Definition write_values (t : dtype) (vs : list rvalue) (b : bsw) : res bsw :=
+  fold_left (fun r v => match r with Ok b => dtype_write t v b | x => x end) vs (Ok b).
+
+(** Reading one attribute's stream delivered in chunks (one per data packet):
+    append the chunk, unpack everything that is complete, go on. *)
+Fixpoint feed_chunks (t : dtype) (cs : list (list N)) (s : bsr) (acc : list rvalue)
+  : res (bsr * list rvalue) :=
+  match cs with
+  | [] => Ok (s, acc)
+  | c :: r =>
+      match bsr_append s c with
+      | Ok s1 =>
+          match unpack_type t s1 with
+          | Ok (s2, vs) => feed_chunks t r s2 (acc ++ vs)
+          | Err k => Err k
+          | Panic => Panic
+          end
+      | Err k => Err k
+      | Panic => Panic
+      end
+  end.
